@@ -26,9 +26,11 @@ a rendering starts with one of these two words (`TSP.head_word`).
   `tquery_spellings_statement` (through `pStatement`), `C09.texpr_spellings` (the expression half, `pOr`);
 * `C09.spelling_invariance` : two admissible spelling choices of one tree parse to equal results (trees AND remaining tokens);
   `C09.spelling_determines_nothing` : equal spelled renderings of two fragment trees ⇒ equal trees;
-* the normal forms the tree holds: `C09.neq_spellings` (`a != b`, `a <> b` ↦ `.compare "NEQ"`), `C09.and_or_spellings`
-  (`&&` ↦ `.and_`, `||` ↦ `.or_`), `C09.div_mod_spellings` (`DIV` ↦ `"DIVIDE"`, `MOD` ↦ `"MOD"`), `C09.alias_as_optional`,
-  `C09.asc_optional`, `C09.limit_offset_form`;
+* the normal forms the tree holds (the tree stores member names, never the spelling): `C09.neq_spellings` (`l != r`, `l <> r` ↦
+  `.compare "NEQ" l r`), `C09.and_spellings` (`&&` ↦ `.and_`), `C09.or_spellings` (`||` ↦ `.or_`), `C09.div_mod_spellings` (`DIV` ↦
+  `"DIVIDE"`, `MOD` ↦ `"MOD"`); what the spelled printer writes: `C09.toks_compare / toks_and / toks_or / toks_not / toks_compute`,
+  `C09.spelled_tokens`; aliases without `AS`, explicit `ASC` and `LIMIT n OFFSET m` are covered by the general theorem (records
+  `TSP.bareSp`, `TSP.altSp`; lemmas `TSP.alias_anyB`, `TSP.orderTail_asc`, `TSP.limitS` = `C03.limit_offset` / `limit_comma` composed);
 * what is NOT alike (separating instances, kernel-checked): `C09.inner_join_is_not_join` (`INNER JOIN` is stored as `INNER_JOIN`, `JOIN` as
   `JOIN`), `C09.union_distinct_rejected`, `C09.amp_is_not_between_and` (`BETWEEN a && b` is an error: the `AND` of BETWEEN is matched by
   word);
@@ -38,6 +40,14 @@ a rendering starts with one of these two words (`TSP.head_word`).
 * finding candidate (F-C13-bang): `C13.witness_hive_bang_before_in` — in the Hive dialect `a ! IN (1)` / `a ! LIKE b` / `a ! BETWEEN …` the
   `!` in the keyword-predicate NOT position (`parser.py:902` asks `get_not_operator_set`) is never reached: the compute level before it has
   already taken `!` as a BINARY operator (`COMPUTE_OPERATOR_HASH` has `"!"`), the result is `a ! IN(1)` with `IN` a function call.
+* C13 at TEXT level (every text, every entry point): `C13.pre_pass_spelling` / `pre_pass_spelling_entry` — a text and its pre-passed form
+  (Hive: every `==` written `=`; DB2: `CURRENT DATE / TIME / TIMESTAMP` written `CURRENT_DATE / …`) parse alike whenever the pre-passed
+  form is clean (`preClean`: the pre-pass has nothing left to do on it); `C13.hive_eqeq_is_eq`; `C13.no_pre_pass_elsewhere`.
+
+Not covered: keyword letter case (Props/C09P, another family — not composed here); `IS ! NULL` (no choice: `IS NOT` is matched by word);
+`!` in the keyword-predicate position (false of the code, see the witness); `INNER JOIN` / `JOIN`, `UNION DISTINCT` (not alike: separating
+instances); the link lexer ↔ spelled token printer for arbitrary trees (checked by `#guard` on texts; proved only for the printer's own
+spelling in Props/C03L / C03QL).
 -/
 set_option linter.unusedVariables false
 set_option linter.unusedSimpArgs false
@@ -436,3 +446,64 @@ set_option maxRecDepth 100000 in
 example : pSelectStmt .HIVE 4000 none (TSP.toksQ .HIVE TSP.bangAll qk ++ C03.lexed ";") = .ok (qk, C03.lexed ";") :=
   C13.dialect_governs_nested qk (by decide) _ (by decide) 4000 (by decide)
 end C09
+
+/-! ### C13 at text level: the spellings the dialect PRE-PASS normalises (Hive `==`, DB2 `CURRENT DATE` …)
+
+`SQLParser._unify_input_scanner` rewrites the TEXT before lexing (`PM.dialectPre`: for Hive every `==` becomes `=`, for DB2 the two-word forms
+`CURRENT DATE / TIME / TIMESTAMP` become the one-word forms).  So a text and its pre-passed form are read alike by EVERY entry point —
+for every text, not only the fragment — as soon as the pre-pass has nothing left to do on its own output (no `==` remains, i.e. the source
+has no run of three `=`; no two-word form remains).  The limits of the pre-pass are the known findings F-C06-2 / F-C06-3 (it also rewrites
+inside quoted regions) and F-C09-1 (only upper case and exactly one blank): the theorem speaks about `dialectPre`, so it inherits them. -/
+namespace C13
+/-- no suffix of the text starts with the pattern -/
+def noOccP (pat : List Char) : List Char → Bool
+  | [] => !pat.isPrefixOf []
+  | c :: r => !pat.isPrefixOf (c :: r) && noOccP pat r
+theorem replaceGo_noOcc (pat rep : List Char) : ∀ (f : Nat) (t : List Char), noOccP pat t = true → Py.replaceGo pat rep f t = t := by
+  intro f
+  induction f with
+  | zero => intro t _; rfl
+  | succ f ih =>
+    intro t h
+    cases t with
+    | nil => rfl
+    | cons c r =>
+      simp only [noOccP, Bool.and_eq_true, Bool.not_eq_true'] at h
+      simp [Py.replaceGo, h.1, ih r h.2]
+theorem replace_noOcc (pat rep t : List Char) (h : noOccP pat t = true) : Py.replace pat rep t = t := by
+  unfold Py.replace; split
+  · rfl
+  · exact replaceGo_noOcc pat rep _ t h
+/-- the text contains nothing the dialect pre-pass would rewrite -/
+def preClean (d : Gen.D) (t : List Char) : Bool :=
+  (d != .HIVE || noOccP "==".toList t) &&
+    (d != .DB2 || (noOccP "CURRENT DATE".toList t && noOccP "CURRENT TIME".toList t && noOccP "CURRENT TIMESTAMP".toList t))
+theorem dialectPre_clean (d : Gen.D) (t : List Char) (h : preClean d t = true) : dialectPre d t = t := by
+  cases d <;> simp_all [dialectPre, preClean, replace_noOcc]
+/-- **a text and its pre-passed form parse alike** (statement entry point; every text whose pre-passed form is clean) -/
+theorem pre_pass_spelling (d : Gen.D) (t : List Char) (h : preClean d (dialectPre d t) = true) :
+    PM.parseStatementsText d t = PM.parseStatementsText d (dialectPre d t) := by
+  unfold PM.parseStatementsText; rw [dialectPre_clean d _ h]
+/-- the same for every entry point `SQLParser.parse_<entry>(text, sql_type)` -/
+theorem pre_pass_spelling_entry (entry : String) (d : Gen.D) (t : List Char) (h : preClean d (dialectPre d t) = true) :
+    PM.parseText entry d t = PM.parseText entry d (dialectPre d t) := by
+  unfold PM.parseText; rw [dialectPre_clean d _ h]
+/-- Hive: the text with `==` and the text in which every `==` is written `=` parse alike -/
+theorem hive_eqeq_is_eq (t : List Char) (h : noOccP "==".toList (Py.replace "==".toList "=".toList t) = true) :
+    PM.parseStatementsText .HIVE t = PM.parseStatementsText .HIVE (Py.replace "==".toList "=".toList t) := by
+  have e : dialectPre .HIVE t = Py.replace "==".toList "=".toList t := by simp [dialectPre]
+  have := pre_pass_spelling .HIVE t (by rw [e]; simpa [preClean] using h)
+  rwa [e] at this
+/-- in the five dialects without a pre-pass nothing is normalised: `==` stays what the lexer makes of it -/
+theorem no_pre_pass_elsewhere (d : Gen.D) (h1 : d ≠ .DB2) (h2 : d ≠ .HIVE) (t : List Char) : dialectPre d t = t := by
+  cases d <;> simp_all [dialectPre]
+-- non-vacuity (compiled evaluation)
+#guard preClean .HIVE (dialectPre .HIVE "SELECT a == b FROM t WHERE c==1".toList) && String.ofList (dialectPre .HIVE "SELECT a == b FROM t WHERE c==1".toList) == "SELECT a = b FROM t WHERE c=1"
+#guard !preClean .HIVE (dialectPre .HIVE "SELECT a === b".toList)
+#guard preClean .DB2 (dialectPre .DB2 "SELECT CURRENT DATE, CURRENT TIMESTAMP FROM t".toList) &&
+  String.ofList (dialectPre .DB2 "SELECT CURRENT DATE, CURRENT TIMESTAMP FROM t".toList) == "SELECT CURRENT_DATE, CURRENT_TIMESTAMP FROM t"
+-- F-C09-1: lower case / two blanks are not normalised (the hypothesis holds trivially, the two texts are the same text)
+#guard String.ofList (dialectPre .DB2 "SELECT current date, CURRENT  DATE FROM t".toList) == "SELECT current date, CURRENT  DATE FROM t"
+#guard (match PM.parseStatementsText .DB2 "SELECT CURRENT DATE FROM t".toList, PM.parseStatementsText .DB2 "SELECT CURRENT_DATE FROM t".toList with
+  | .ok [.select p], .ok [.select q] => Drv.showVal p.toVal == Drv.showVal q.toVal | _, _ => false)
+end C13
